@@ -164,6 +164,8 @@ class Rec:
             "detail": str(detail)[:2000],
             "shard": self.shard,
         }
+        if isinstance(self.shard, dict) and self.shard.get("__env__") and isinstance(v["case"], dict):
+            v["case"]["__env__"] = self.shard["__env__"]  # the case is replayed under the same environment
         if cls is None and self.mod is not None and hasattr(self.mod, "classify"):
             try:
                 cls = self.mod.classify(v)
@@ -199,6 +201,36 @@ class Rec:
         }
 
 
+class shard_env:
+    """Environment a shard (or a replayed case) asks for: {"__env__": {"TZ": ..., "COLUMNS": ...}}.
+    The hermetic default is TZ=UTC; a shard may ask for another zone so that code which goes through
+    local time (time.localtime, datetime.fromtimestamp) is seen. Restored afterwards."""
+
+    def __init__(self, spec):
+        self.env = (spec or {}).get("__env__") if isinstance(spec, dict) else None
+        self.saved = {}
+
+    def _apply(self, env):
+        for k, v in env.items():
+            if v is None:
+                os.environ.pop(k, None)
+            else:
+                os.environ[k] = v
+        if "TZ" in env:
+            time.tzset()
+
+    def __enter__(self):
+        if self.env:
+            self.saved = {k: os.environ.get(k) for k in self.env}
+            self._apply(self.env)
+        return self
+
+    def __exit__(self, *exc):
+        if self.env:
+            self._apply(self.saved)
+        return False
+
+
 def load_check(check_id):
     if VERIF not in sys.path:
         sys.path.insert(0, VERIF)
@@ -212,7 +244,8 @@ def _work(arg):
         mod = load_check(check_id)
         rec = Rec(check_id, mod)
         rec.shard = shard
-        mod.run_shard(shard, rec)
+        with shard_env(shard):
+            mod.run_shard(shard, rec)
         out = rec.payload()
         out["index"] = index
         out["wall"] = time.time() - t0
@@ -360,7 +393,8 @@ def run_check(check_id, tier, seed):
         if os.environ.get("VERIF_NO_RECHECK") != "1":
             probe = Rec(check_id, mod)
             try:
-                mod.check_case(vs[0]["case"], probe)
+                with shard_env(vs[0]["case"]):
+                    mod.check_case(vs[0]["case"], probe)
             except Exception as e:
                 raise InfraError(f"re-execution of a violating case raised {type(e).__name__}: {e} (signature {sig})")
             if sig not in probe.vcount:
@@ -454,9 +488,11 @@ def run_replay(path):
     rec = Rec(check_id, mod)
     if isinstance(data["case"], dict) and "__shard__" in data["case"]:
         rec.shard = data["case"]["__shard__"]
-        mod.run_shard(data["case"]["__shard__"], rec)
+        with shard_env(rec.shard):
+            mod.run_shard(data["case"]["__shard__"], rec)
     else:
-        mod.check_case(data["case"], rec)
+        with shard_env(data["case"]):
+            mod.check_case(data["case"], rec)
     known = {e["signature"] for e in load_known().get("open", []) if e.get("property") == check_id}
     bad = [v for v in rec.violations if v["signature"] not in known]
     for v in rec.violations:
